@@ -387,6 +387,17 @@ fn exercise(
                 match r {
                     Ok(o) => outcome.push_str(&format!(":unchanged={}", o.result)),
                     Err((class, _)) if class == "local-copy-unreadable" || class == "object-unreadable" => outcome.push_str(":unchanged=damage-remains"),
+                    // Not Modified leaves a damaged session or serial in the
+                    // state record as it is; what counts is that the objects
+                    // are the server's (the next change brings a new snapshot)
+                    Err((class, msg)) if class == "unknown-version" => {
+                        let intact = c25::read_local(&rrdp.path).ok().flatten().map(|l| {
+                            let mine: std::collections::BTreeMap<String, Vec<u8>> = l.objects.into_iter().filter(|(k, _)| k.contains("/m/o")).collect();
+                            mine == server.objects
+                        }).unwrap_or(false);
+                        if !intact { return Err((format!("update-{class}"), msg)) }
+                        outcome.push_str(":unchanged=state-record-damaged-objects-intact");
+                    }
                     Err((class, msg)) => return Err((format!("update-{class}"), msg)),
                 }
             }
